@@ -158,7 +158,16 @@ class EngineBase:
         if ty.startswith('obj:'):
             return self.spec.make_object(self, ty[4:])
         if ty.startswith('tuple:'):
-            return TupleV([self.fresh_of_type(t, f"{base}.{i}") for i, t in enumerate(ty[6:].split(','))])
+            parts, raw = [], ty[6:].split(',')
+            i = 0
+            while i < len(raw):
+                if 'pair:' in raw[i] and i + 1 < len(raw):
+                    parts.append(raw[i] + ',' + raw[i + 1])
+                    i += 2
+                else:
+                    parts.append(raw[i])
+                    i += 1
+            return TupleV([self.fresh_of_type(t, f"{base}.{i}") for i, t in enumerate(parts)])
         if ty == 'none':
             return None
         if ty == 'proc':
